@@ -127,7 +127,7 @@ impl Part for Main {
         "select"
     }
     fn cases(&self, tier: Tier) -> u32 {
-        tier.pick(6000, 200_000)
+        tier.pick(25_000, 400_000)
     }
     fn strategy(&self, tier: Tier) -> BoxedStrategy<Case> {
         let depth = tier.pick(2, 3);
